@@ -20,6 +20,7 @@ type callSite struct {
 }
 
 type SharedInfo struct {
+	fieldIndex  map[string][]fieldWrite
 	p           *Program
 	SharedTypes map[string]bool              // typeKey of struct types instantiated by initialisers / globals
 	sharedNamed []*types.Named               // same, as types
@@ -258,9 +259,73 @@ func (s *SharedInfo) loaded(v ssa.Value, from ssa.Value, depth int) (bool, strin
 	}
 	// the container is request-local, but a pointer/interface stored in it may still refer to a singleton
 	if sh, why := s.typeMayHoldShared(v.Type()); sh {
+		// field-based refinement: a field of a named struct holds what some store put there. When the program stores into
+		// that field explicitly (and never through a package initialiser), the stored values decide.
+		if vals, ok := s.fieldWriters(from); ok {
+			for _, w := range vals {
+				if w.init {
+					return true, "loaded " + why + " (the field is filled by a package initialiser)"
+				}
+				if sh2, why2 := s.may(w.val, depth+1); sh2 {
+					return true, "loaded from a field that holds: " + why2
+				}
+			}
+			return false, ""
+		}
 		return true, "loaded " + why
 	}
 	return false, ""
+}
+
+type fieldWrite struct {
+	val  ssa.Value
+	init bool
+}
+
+// fieldWriters: all values stored anywhere in the repository into the struct field the address denotes (field-based:
+// every object of the struct type is treated alike). ok=false when the address is not a field of a named struct or
+// nothing stores into the field explicitly (then it is filled by a decoder or never: the type rule applies).
+func (s *SharedInfo) fieldWriters(addr ssa.Value) ([]fieldWrite, bool) {
+	var base types.Type
+	var idx int
+	switch a := addr.(type) {
+	case *ssa.FieldAddr:
+		base, idx = a.X.Type(), a.Field
+	case *ssa.Field:
+		base, idx = a.X.Type(), a.Field
+	default:
+		return nil, false
+	}
+	n := namedOf(base)
+	if n == nil {
+		return nil, false
+	}
+	if s.fieldIndex == nil {
+		s.fieldIndex = map[string][]fieldWrite{}
+		for _, f := range s.p.Funcs {
+			isInit := s.p.Inits[f] && !s.p.RPHttp[f]
+			for _, b := range f.Blocks {
+				for _, in := range b.Instrs {
+					st, ok := in.(*ssa.Store)
+					if !ok {
+						continue
+					}
+					fa, ok := st.Addr.(*ssa.FieldAddr)
+					if !ok {
+						continue
+					}
+					bn := namedOf(fa.X.Type())
+					if bn == nil {
+						continue
+					}
+					k := typeKey(bn) + "." + fieldName(fa.X.Type(), fa.Field)
+					s.fieldIndex[k] = append(s.fieldIndex[k], fieldWrite{st.Val, isInit})
+				}
+			}
+		}
+	}
+	w, ok := s.fieldIndex[typeKey(n)+"."+fieldName(base, idx)]
+	return w, ok && len(w) > 0
 }
 
 func (s *SharedInfo) callResult(call *ssa.Call, index int, depth int) (bool, string) {
